@@ -74,6 +74,39 @@ pub struct LogitCase {
     pub name_keys: Vec<u16>,
     pub order_keys: Vec<u16>,
     pub threshold: u16,
+    /// options left at their documented defaults (bit set = the setter is NOT called and the oracle uses the default):
+    /// 1 alpha (1.0), 2 with_intercept (true), 4 gradient_tolerance (1e-4), 8 max_iterations (100). Absent in older replays = 0.
+    #[serde(default)]
+    pub unset: u8,
+}
+
+pub const UNSET_ALPHA: u8 = 1;
+pub const UNSET_INTERCEPT: u8 = 2;
+pub const UNSET_TOL: u8 = 4;
+pub const UNSET_MAX_ITER: u8 = 8;
+/// documented defaults of LogisticRegressionParams (doc comments of the setters)
+pub const DEFAULT_ALPHA: f64 = 1.0;
+pub const DEFAULT_TOL: f64 = 1e-4;
+
+impl LogitCase {
+    /// alpha requested by the case (before the separability rule), the documented default when left unset
+    pub fn alpha_raw(&self) -> f64 {
+        if self.unset & UNSET_ALPHA != 0 {
+            DEFAULT_ALPHA
+        } else {
+            ALPHAS[(self.alpha_ix as usize).min(3)]
+        }
+    }
+    pub fn intercept_eff(&self) -> bool {
+        self.unset & UNSET_INTERCEPT != 0 || self.intercept
+    }
+    pub fn tol_eff(&self) -> f64 {
+        if self.unset & UNSET_TOL != 0 {
+            DEFAULT_TOL
+        } else {
+            TOLS[self.tight_tol as usize]
+        }
+    }
 }
 
 // ------------------------------------------------------------------------------------------------
@@ -118,13 +151,14 @@ pub fn case_strategy(multi: bool, _tier: Tier) -> impl Strategy<Value = LogitCas
                     proptest::collection::vec(any::<u16>(), STR_POOL.len()),
                     proptest::collection::vec(any::<u16>(), N_MAX),
                     any::<u16>(),
+                    prop_oneof![3 => Just(0u8), 2 => 0u8..16],
                 ),
             )
         })
         .prop_map(
             move |(
                 (k, rows, w, bias, signal_ix, balance, scale_ix),
-                (alpha_ix, intercept, init, tight_tol, kind, name_keys, order_keys, threshold),
+                (alpha_ix, intercept, init, tight_tol, kind, name_keys, order_keys, threshold, unset),
             )| LogitCase {
                 multi,
                 k,
@@ -142,6 +176,7 @@ pub fn case_strategy(multi: bool, _tier: Tier) -> impl Strategy<Value = LogitCas
                 name_keys,
                 order_keys,
                 threshold,
+                unset,
             },
         )
 }
@@ -285,11 +320,11 @@ pub fn deficit_at_own_minimiser(case: &LogitCase) -> Option<f64> {
     if !case.multi {
         return None;
     }
-    let mut alpha = ALPHAS[(case.alpha_ix as usize).min(3)];
-    if alpha == 0.0 && !not_separable(&d, case.intercept, true) {
+    let mut alpha = case.alpha_raw();
+    if alpha == 0.0 && !not_separable(&d, case.intercept_eff(), true) {
         alpha = FORCED_ALPHA;
     }
-    let obj = Multi { x: &d.x, c: &d.c, p: d.p, k: d.k, intercept: case.intercept, alpha };
+    let obj = Multi { x: &d.x, c: &d.c, p: d.p, k: d.k, intercept: case.intercept_eff(), alpha };
     let pl = model::polish(&obj, &vec![0.0; obj.dim()], 200)?;
     // L-BFGS' first trial point is start - 1 * gradient (start = zeros unless initial parameters were given; the
     // rough location is all that matters here). With un-normalised features it lies deep inside the clamp region.
@@ -305,20 +340,20 @@ pub fn deficit_at_own_minimiser(case: &LogitCase) -> Option<f64> {
 /// loss is NaN and argmin's line search (no iteration limit) never ends.
 pub fn tolerance_at_gradient_resolution(case: &LogitCase) -> bool {
     let Some(d) = derive(case) else { return false };
-    let mut alpha = ALPHAS[(case.alpha_ix as usize).min(3)];
-    if alpha == 0.0 && !not_separable(&d, case.intercept, case.multi) {
+    let mut alpha = case.alpha_raw();
+    if alpha == 0.0 && !not_separable(&d, case.intercept_eff(), case.multi) {
         alpha = FORCED_ALPHA;
     }
-    let tol = TOLS[case.tight_tol as usize];
+    let tol = case.tol_eff();
     let resolution = |obj: &dyn Objective| -> Option<f64> {
         let pl = model::polish(obj, &vec![0.0; obj.dim()], 200)?;
         Some(model::grad_bound(0.0, obj.curv(&pl.theta), obj.mag(&pl.theta)))
     };
     let r = if case.multi {
-        resolution(&Multi { x: &d.x, c: &d.c, p: d.p, k: d.k, intercept: case.intercept, alpha })
+        resolution(&Multi { x: &d.x, c: &d.c, p: d.p, k: d.k, intercept: case.intercept_eff(), alpha })
     } else {
         let y: Vec<f64> = d.c.iter().map(|&c| if c == 1 { 1.0 } else { -1.0 }).collect();
-        resolution(&Binary { x: &d.x, y: &y, p: d.p, intercept: case.intercept, alpha })
+        resolution(&Binary { x: &d.x, y: &y, p: d.p, intercept: case.intercept_eff(), alpha })
     };
     matches!(r, Some(r) if r >= 0.1 * tol)
 }
@@ -332,6 +367,8 @@ pub struct Cfg {
     pub tol: f64,
     pub init: Option<Vec<f64>>,
     pub threshold: f64,
+    /// see LogitCase::unset
+    pub unset: u8,
 }
 
 fn to_array2(x: &[Vec<f64>], p: usize) -> Array2<f64> {
@@ -382,19 +419,30 @@ fn fit_binary<C: Lab>(obs: &mut Obs, tag: &'static str, x: &[Vec<f64>], labels: 
     let xa = to_array2(x, p);
     let ya: Array1<C> = Array1::from(labels.to_vec());
     let ds = DatasetBase::new(xa.clone(), ya);
-    let build = |max_iter: u64| {
-        let mut params = LogisticRegression::<f64>::default()
-            .alpha(cfg.alpha)
-            .with_intercept(cfg.intercept)
-            .max_iterations(max_iter)
-            .gradient_tolerance(cfg.tol);
+    // max_iterations left unset = the documented default of 100; the re-fit always sets 2 * MAX_ITER explicitly
+    let first_iters = if cfg.unset & UNSET_MAX_ITER != 0 { None } else { Some(MAX_ITER) };
+    let build = |max_iter: Option<u64>| {
+        // options whose bit is set in `unset` stay at their documented defaults (the oracle uses those values)
+        let mut params = LogisticRegression::<f64>::default();
+        if cfg.unset & UNSET_ALPHA == 0 || cfg.alpha != DEFAULT_ALPHA {
+            params = params.alpha(cfg.alpha);
+        }
+        if cfg.unset & UNSET_INTERCEPT == 0 {
+            params = params.with_intercept(cfg.intercept);
+        }
+        if let Some(m) = max_iter {
+            params = params.max_iterations(m);
+        }
+        if cfg.unset & UNSET_TOL == 0 {
+            params = params.gradient_tolerance(cfg.tol);
+        }
         if let Some(init) = &cfg.init {
             let d = p + cfg.intercept as usize;
             params = params.initial_params(Array1::from((0..d).map(|j| at(init, j)).collect::<Vec<_>>()));
         }
         params
     };
-    let Some(res) = obs.call("binary:fit", || build(MAX_ITER).fit(&ds)) else { return Outcome { verdict: None, lse_defect: false } };
+    let Some(res) = obs.call("binary:fit", || build(first_iters).fit(&ds)) else { return Outcome { verdict: None, lse_defect: false } };
     let model = match res {
         Ok(m) => m,
         Err(_) => {
@@ -442,7 +490,7 @@ fn fit_binary<C: Lab>(obs: &mut Obs, tag: &'static str, x: &[Vec<f64>], labels: 
     if j.verdict == Verdict::NotStationary {
         // Did the run stop on its own, or was it cut off by max_iterations? A deterministic solver that stopped on
         // its own returns bit-identical parameters when it is allowed twice as many iterations.
-        let same = match vengine::guard(|| build(2 * MAX_ITER).fit(&ds)) {
+        let same = match vengine::guard(|| build(Some(2 * MAX_ITER)).fit(&ds)) {
             Ok(Ok(m2)) => {
                 m2.intercept().to_bits() == b.to_bits()
                     && m2.params().len() == w.len()
@@ -542,18 +590,29 @@ fn fit_multi<C: Lab>(obs: &mut Obs, tag: &'static str, x: &[Vec<f64>], labels: &
     train.dedup();
     let k = train.len();
     let rows = p + cfg.intercept as usize;
-    let build = |max_iter: u64| {
-        let mut params = MultiLogisticRegression::<f64>::default()
-            .alpha(cfg.alpha)
-            .with_intercept(cfg.intercept)
-            .max_iterations(max_iter)
-            .gradient_tolerance(cfg.tol);
+    // max_iterations left unset = the documented default of 100; the re-fit always sets 2 * MAX_ITER explicitly
+    let first_iters = if cfg.unset & UNSET_MAX_ITER != 0 { None } else { Some(MAX_ITER) };
+    let build = |max_iter: Option<u64>| {
+        // options whose bit is set in `unset` stay at their documented defaults (the oracle uses those values)
+        let mut params = MultiLogisticRegression::<f64>::default();
+        if cfg.unset & UNSET_ALPHA == 0 || cfg.alpha != DEFAULT_ALPHA {
+            params = params.alpha(cfg.alpha);
+        }
+        if cfg.unset & UNSET_INTERCEPT == 0 {
+            params = params.with_intercept(cfg.intercept);
+        }
+        if let Some(m) = max_iter {
+            params = params.max_iterations(m);
+        }
+        if cfg.unset & UNSET_TOL == 0 {
+            params = params.gradient_tolerance(cfg.tol);
+        }
         if let Some(init) = &cfg.init {
             params = params.initial_params(Array2::from_shape_fn((rows, k), |(r, c)| at(init, r * K_MAX + c)));
         }
         params
     };
-    let Some(res) = obs.call("multi:fit", || build(MAX_ITER).fit(&ds)) else { return Outcome { verdict: None, lse_defect: false } };
+    let Some(res) = obs.call("multi:fit", || build(first_iters).fit(&ds)) else { return Outcome { verdict: None, lse_defect: false } };
     let model = match res {
         Ok(m) => m,
         Err(_) => {
@@ -600,7 +659,7 @@ fn fit_multi<C: Lab>(obs: &mut Obs, tag: &'static str, x: &[Vec<f64>], labels: &
     let mut j = model::judge(&obj, &theta, cfg.tol);
     if j.verdict == Verdict::NotStationary {
         // see fit_binary: was the run cut off by max_iterations?
-        let same = match vengine::guard(|| build(2 * MAX_ITER).fit(&ds)) {
+        let same = match vengine::guard(|| build(Some(2 * MAX_ITER)).fit(&ds)) {
             Ok(Ok(m2)) => {
                 m2.params().dim() == wm.dim()
                     && m2.params().iter().zip(wm.iter()).all(|(a, c)| a.to_bits() == c.to_bits())
@@ -779,11 +838,11 @@ pub fn check(case: &LogitCase, obs: &mut Obs) {
         obs.skip("degenerate_case");
         return;
     };
-    let mut alpha = ALPHAS[(case.alpha_ix as usize).min(3)];
-    let tol = TOLS[case.tight_tol as usize];
+    let mut alpha = case.alpha_raw();
+    let tol = case.tol_eff();
     let mut overlapping = false;
     if alpha == 0.0 {
-        if not_separable(&d, case.intercept, case.multi) {
+        if not_separable(&d, case.intercept_eff(), case.multi) {
             overlapping = true;
             obs.class("alpha0_overlapping");
         } else {
@@ -802,11 +861,15 @@ pub fn check(case: &LogitCase, obs: &mut Obs) {
         10 => "scale_10",
         _ => "scale_100",
     });
-    obs.class_if(case.intercept, "intercept");
-    obs.class_if(!case.intercept, "no_intercept");
+    obs.class_if(case.intercept_eff(), "intercept");
+    obs.class_if(!case.intercept_eff(), "no_intercept");
     obs.class_if(case.init.is_some(), "initial_params");
-    obs.class_if(case.tight_tol, "tol_1e-6");
-    obs.class_if(!case.tight_tol, "tol_1e-4");
+    obs.class_if(tol == 1e-6, "tol_1e-6");
+    obs.class_if(tol == 1e-4, "tol_1e-4");
+    obs.class_if(case.unset & UNSET_ALPHA != 0, "default_alpha_not_set");
+    obs.class_if(case.unset & UNSET_INTERCEPT != 0, "default_intercept_not_set");
+    obs.class_if(case.unset & UNSET_TOL != 0, "default_gradient_tolerance_not_set");
+    obs.class_if(case.unset & UNSET_MAX_ITER != 0, "default_max_iterations_not_set");
     obs.class(match case.kind {
         LabelKind::Bool => "labels_bool",
         LabelKind::Usize => "labels_usize",
@@ -850,7 +913,7 @@ pub fn check(case: &LogitCase, obs: &mut Obs) {
             (0..=d.p).map(|j| if j < d.p { g(j) / d.scale } else { g(j) }).collect()
         }
     });
-    let cfg = Cfg { alpha, intercept: case.intercept, tol, init, threshold: threshold_of(case.threshold) };
+    let cfg = Cfg { alpha, intercept: case.intercept_eff(), tol, init, threshold: threshold_of(case.threshold), unset: case.unset };
     obs.class_if(cfg.threshold == 0.0 || cfg.threshold == 1.0, "threshold_at_boundary");
 
     // variant A: generated sample order, generated label type and naming
